@@ -35,7 +35,7 @@ def _get_name_and_record_counts_from_union(schema: List[Schema]) -> Tuple[int, i
     named_type_count = 0
     for s in schema:
         extracted_type = extract_record_type(s)
-        if extracted_type == "record":
+        if extracted_type == "record" or extracted_type == "error":
             record_type_count += 1
             named_type_count += 1
         elif extracted_type == "enum" or extracted_type == "fixed":
